@@ -91,6 +91,9 @@ impl PDFObjContext {
         self.cur_depth -= 1;
     }
     pub fn depth(&self) -> usize { self.cur_depth }
+    // Verification hook: the identifiers currently defined, in map order.
+    #[cfg(feature = "verif")]
+    pub fn verif_ids(&self) -> Vec<ObjectId> { self.defns.keys().cloned().collect() }
 }
 
 #[derive(Debug, PartialEq, Eq, PartialOrd, Ord)]
